@@ -469,7 +469,9 @@ func (m *RulesMonitor) checkVoteSign(net *Net, n *Node, v *nodeView, e Ev, wit f
 	m.A.Counts["signed_block_"+tname]++
 	// must hold the complete block and it must be a valid extension of the node's chain
 	kb := v.blocks[key]
-	if kb == nil {
+	if kb != nil && kb.block.Height() != e.Height {
+		m.A.Raise("C03", tname+"-for-block-of-another-height", fmt.Sprintf("node %d signed a %s at height %d (round %d) for a block of height %d", n.Idx, tname, e.Height, e.Round, kb.block.Height()), wit())
+	} else if kb == nil {
 		m.A.Raise("C03", tname+"-without-block", fmt.Sprintf("node %d signed a %s for %s at %d/%d without having received all parts of that block", n.Idx, tname, ShortBID(bid), e.Height, e.Round), wit())
 	} else if err := m.validBlock(net, v, kb.block); err == errNoSnapshot {
 		m.A.Counts["validity_not_judged_no_snapshot"]++
